@@ -629,6 +629,40 @@ func (p *Prog) ProveLERes(fi *FnInfo, at ssa.Instruction, facts []Atom, a, b *Te
 	if depth >= 3 {
 		return false, self
 	}
+	// builtin min/max: the value is one of its arguments; each case carries the ordering that selects it
+	var mm *Term
+	for _, t := range []*Term{a, b} {
+		t.walk(func(x *Term) {
+			if mm == nil && x.K == TCall && len(x.Sub) == 2 && (x.callName() == "builtin:min" || x.callName() == "builtin:max") {
+				mm = x
+			}
+		})
+	}
+	if mm != nil {
+		isMin := mm.callName() == "builtin:min"
+		all := true
+		for i := 0; i < 2; i++ {
+			sel, other := mm.Sub[i], mm.Sub[1-i]
+			ef := append([]Atom{}, facts...)
+			if isMin {
+				ef = append(ef, mkAtom("<=", sel, other))
+			} else {
+				ef = append(ef, mkAtom("<=", other, sel))
+			}
+			for _, f := range facts {
+				if mentions(f, mm) {
+					ef = append(ef, mkAtom(f.Op, replaceTerm(f.L, mm, sel), replaceTerm(f.R, mm, sel)))
+				}
+			}
+			if ok, _ := p.ProveLERes(fi, at, ef, replaceTerm(a, mm, sel), replaceTerm(b, mm, sel), strict, depth+1); !ok {
+				all = false
+				break
+			}
+		}
+		if all {
+			return true, nil
+		}
+	}
 	// phi splitting
 	var phiT *Term
 	for _, t := range []*Term{a, b} {
